@@ -54,7 +54,10 @@ class Hist:
         return len(self.steps) - 1
 
     def dec_gen_in(self, rng, rows, n):
-        # decisions over the input space from the pool (sometimes negated / scaled)
+        # decisions over the input space from the pool (sometimes negated / scaled); now and then a constant predicate
+        # 0.x <= c, so that an infeasible branch hangs directly below its decision (also below the root)
+        if rng.random() < 0.08:
+            return ([[FR(0)] * n], [rng.choice([FR(0), FR(1), FR(-1)])])
         a = rng.choice(self.pool)
         s = rng.choice([FR(1), FR(1), FR(-1), FR(2)])
         return ([[s * v for v in a]], [s * rng.choice(self.bias_pool) + (rng.choice([FR(0), FR(0), FR(1)]))])
@@ -113,8 +116,13 @@ class Hist:
         pool = [gen.nonzero_vec(rng, self.m, pzero=0.3) for _ in range(2)]
 
         def dg(rng_, rows, n):
+            if rng_.random() < 0.08:
+                return ([[FR(0)] * n], [rng_.choice([FR(0), FR(1), FR(-1)])])
             return ([list(rng_.choice(pool))], [rng_.choice(self.bias_pool)])
         ts, _ = gen.tree_steps(name, sh, self.m, newm, rng, dec_gen=dg)
+        if rng.random() < 0.3:
+            # the operand carries cached feasibility states of its own (it was simplified before being composed)
+            ts = ts + [{"op": "elim", "tree": name}]
         return ts, newm
 
     def _op(self, op):
@@ -150,6 +158,8 @@ class Hist:
             if op.endswith("schema"):
                 st, kind, newm = self._schema_step(name)
                 self.steps.append(st)
+                if rng.random() < 0.15:
+                    self.steps.append({"op": "elim", "tree": name})
                 label = "%s(%s)" % (op[:9], kind)
             else:
                 ts, newm = self._tree_operand(name)
